@@ -134,6 +134,12 @@ def census(ctx, outs, typelevel=None):
                         ub = z.ub(P_lin_atom(b)) if not is_const(b) else b[1]
                         bits = TY.get(a, TY.get(b, (64, False)))[0]
                         done = ua is not None and ub is not None and ua * ub <= (1 << bits) - 1
+                if not done and cond[0] == "ovf" and cond[1] == "Add" and _sum_of_lengths(cond[2], cond[3]):
+                    done = True
+                    ctx.assume("no byte sequence is longer than 2^61 bytes (the virtual address space of every 64-bit target is at most "
+                               "2^57 bytes): a sum of up to four sequence lengths and a constant below 2^32 does not overflow usize")
+                    s.how.add("sum of sequence lengths (address-space bound)")
+                    continue
                 if done:
                     s.how.add("zone")
                 else:
@@ -239,6 +245,23 @@ def census(ctx, outs, typelevel=None):
         for i, s in enumerate(g):
             s.ordinal = i
     return {s.key: s for s in sites.values()}
+
+
+def _sum_of_lengths(a, b):
+    """a + b is a sum of at most four `len(..)` terms (64-bit) and constants below 2^32"""
+    lens = consts = 0
+    work = [a, b]
+    while work:
+        x = work.pop()
+        if is_const(x) and isinstance(x[1], int) and 0 <= x[1] < (1 << 32):
+            consts += x[1]
+        elif isinstance(x, tuple) and x and x[0] == "binop" and x[1] == "Add":
+            work += [x[2], x[3]]
+        elif isinstance(x, tuple) and x and x[0] == "len" and TY.get(x, (64, False))[0] == 64:
+            lens += 1
+        else:
+            return False
+    return 1 <= lens <= 4 and consts < (1 << 32)
 
 
 def P_lin_atom(t):
